@@ -227,3 +227,92 @@ func c04R7(h H) {
 	}
 	r.Check(bad == "", "R7", "proxy.(*staticUpstream).NewHost+Proxy.ServeHTTP/header-rules-reach-application", sv.Pos(), "whatever header rules a proxy block configures are applied to the requests it proxies", fmt.Sprintf("%d configurations evaluated", n), bad)
 }
+
+// c04R8: a copied header is a copy.  The proxy copies the client's header for every attempt (and the backend's for
+// the client) and then rewrites lines in place (the regex replacement rules write values[i]); were the copy to share
+// its line slices with the original, the first attempt's rewriting would show in the pristine header the second
+// attempt starts from, and in the client's own request.  copyHeader is evaluated (E10) on a source with a two-line
+// field, a one-line field and `Server`, into an empty destination and into one that already has the fields: the
+// destination ends up with the source's lines (a `Server` line the destination already has is kept in front), and no
+// line slot of the destination is a slot of the source.
+func c04R8(h H) {
+	r := h.r
+	r.Rule("R8", "header copies share nothing with the original, as a table (E10) of proxy.copyHeader into an empty and into a pre-filled destination: every field of the source arrives line by line, and no line slot of the destination is the source's own (a later in-place rewrite of one does not show in the other)", 1)
+	fn := h.fn("R8", pxPkg, "copyHeader")
+	if fn == nil {
+		return
+	}
+	hdrT, _ := types.Unalias(h.p.typeByName("net/http", "Header")).Underlying().(*types.Map)
+	if hdrT == nil {
+		r.Unresolve("R8", "net/http.Header not found")
+		return
+	}
+	strT := types.Typ[types.String]
+	mkHdr := func(kv ...interface{}) amap {
+		m := amap{&amapData{vals: map[string]aval{}, keys: map[string]aval{}, typ: hdrT}}
+		for i := 0; i+1 < len(kv); i += 2 {
+			k := kv[i].(string)
+			var vs []aval
+			for _, s := range kv[i+1].([]string) {
+				vs = append(vs, astr(s))
+			}
+			m.m.vals["s:"+k] = newVals(vs, strT)
+			m.m.keys["s:"+k] = astr(k)
+		}
+		return m
+	}
+	lines := func(m amap, k string) ([]string, []*aobj) {
+		sl, ok := m.m.vals["s:"+k].(avals)
+		if !ok {
+			return nil, nil
+		}
+		var out []string
+		for _, c := range sl.cells {
+			out = append(out, describeAval(c.f[""]))
+		}
+		return out, sl.cells
+	}
+	bad, n := "", 0
+	for _, prefilled := range []bool{false, true} {
+		src := mkHdr("X-A", []string{"a1", "a2"}, "X-B", []string{"b"}, "Server", []string{"backend"})
+		dst := mkHdr()
+		if prefilled {
+			dst = mkHdr("X-A", []string{"old"}, "Server", []string{"casket"}, "X-Keep", []string{"k"})
+		}
+		env := &absEnv{globals: map[string]*aobj{}, noFork: true, maxSteps: 100000}
+		_, und := env.run(fn, []aval{dst, src})
+		n++
+		desc := sprintf("copy of {X-A: a1, a2; X-B: b; Server: backend} into %s", map[bool]string{false: "an empty header", true: "{X-A: old; Server: casket; X-Keep: k}"}[prefilled])
+		if und != "" {
+			bad = desc + ": undecided — " + und
+			break
+		}
+		want := map[string]string{"X-A": `"a1" "a2"`, "X-B": `"b"`, "Server": `"backend"`}
+		if prefilled {
+			want["Server"] = `"casket" "backend"`
+			want["X-Keep"] = `"k"`
+		}
+		for k, w := range want {
+			got, cells := lines(dst, k)
+			if strings.Join(got, " ") != w {
+				bad = sprintf("%s: %s arrives as [%s], specification says [%s]", desc, k, strings.Join(got, " "), w)
+				break
+			}
+			_, scells := lines(src, k)
+			for _, dc := range cells {
+				for _, sc := range scells {
+					if dc == sc {
+						bad = sprintf("%s: the lines of %s in the copy are the original's own slots — rewriting a line of the copy in place rewrites the original (the pristine header of the next attempt, the client's request)", desc, k)
+					}
+				}
+			}
+			if bad != "" {
+				break
+			}
+		}
+		if bad != "" {
+			break
+		}
+	}
+	r.Check(bad == "", "R8", "proxy.copyHeader/copy-shares-nothing", fn.Pos(), "copyHeader copies lines, not slices", sprintf("%d copies evaluated", n), bad)
+}
